@@ -3,6 +3,7 @@ import PhyModel.Proofs.Gibbs
 import PhyModel.Model.SMC
 import PhyModel.Proofs.PG4
 import PhyModel.Proofs.PG9
+import PhyModel.Proofs.PG20
 import PhyModel.Proofs.PGExample
 /-! # C01 — one particle-Gibbs update of the whole tree leaves the posterior invariant
 
@@ -33,9 +34,12 @@ and the PhyClone instance is built on them:
   orders, `pdf = 1/count`) the kernel "draw σ given the tree, sweep along σ" leaves `pOne` invariant
   on the complete trees of the data set.
 
-The executable model `SMC.pgStep` (which the correspondence check compares, transition row by
-transition row, with the exact kernel of the real `sample_tree`) is an instance of this abstract
-scheme; what remains of the formal identification is the open obligation at the end. -/
+* `pg_csmc_exec`, `pg_step_exec`, `pg_invariant` — the executable model (`SMC.csmc`, `SMC.pgStep`:
+  list-based finite distributions, slots as a list, `multinomial(N-1)` ancestors laid out in index
+  order, weights starting at `1/N`, `lookupQ` for the proposal probability, the retained path rebuilt by
+  `SMC.restrict`) has, for every test function, the expectation given by the abstract kernel; so
+  `SMC.pgStep` — the model the correspondence check compares, transition row by transition row, with
+  the exact kernel of the real `sample_tree` — leaves `pOne` invariant. -/
 
 namespace PhyModel.Props.C01
 open Finset BigOperators
@@ -150,6 +154,55 @@ example : (∀ k, PG.HypD Props.C19.exData (PG.exCfg k) [0, 1]) ∧
     (PGSpec.finals (PG.exCfg .semi) [0, 1]).length = 12 := by
   refine ⟨PG.exHypD, ?_⟩; decide +kernel
 
--- OBLIGATION-OPEN pg_invariant: identify `SMC.csmc` with `ASMC.kernel (PG.spec …)` and conclude `∑ x, pOne x * P(SMC.pgStep x = y) = pOne y`; until then the tie between the abstract theorem and `SMC.pgStep` is the exact row-by-row correspondence with the real code plus the exact `πK = π` oracle on every enumerated configuration.
+/-- **Stage 3a: the executable conditional SMC sweep is the abstract kernel.**  For an order `σ ≠ []`
+satisfying `PG.Hyp`, a start tree `x` in the last level along `σ`, `N = m + 1` particles, any threshold:
+`SMC.csmc` (first step from `N` empty particles of weight `1/N`, then for every further data point
+"resample if the relative ESS is at most `θ`" — slot 0 kept, the `N - 1` ancestors of
+`multinomial(N-1, W̄)` laid out in index order, weights reset to `1/N` — "and propagate" — slot 0 moved to
+`SMC.restrict x (σ.take (t+1))`, every other slot by `Proposal.sampler`, weights multiplied by
+`Proposal.incrWeight` with the proposal probability looked up in `Proposal.table`) followed by the
+final draw proportional to the weights has, for every test function `hh`, the expectation
+`∑ y, ASMC.kernel (PG.spec σ (1/N)) (1/N) |σ| x y · hh y`. -/
+theorem pg_csmc_exec (dt : Data) (c : Proposal.Cfg) (σ : List ℕ) (L : List T) (h : PG.Hyp dt c σ)
+    (hL : ∀ x ∈ PGSpec.states c σ, x ∈ L) (θ : ℚ) (m : ℕ) (hne : σ ≠ []) (x : PG.St L)
+    (hx : x.1 ∈ PGSpec.level c σ σ.length) (hh : T → ℚ) :
+    Dist.E (Dist.bind (SMC.csmc (PG.runOf dt c m θ) x.1 σ) SMC.select) hh
+      = ∑ y : PG.St L, ASMC.kernel (PG.spec dt c σ (PG.uN m) L hL θ m) (PG.uN m) σ.length x y * hh y.1 := by
+  obtain ⟨path, hp, hlast⟩ := PG.exists_pathOK (L := L) h.nodup h.big hL hx
+  have := PG.csmc_E h (PG.inj_of_hyp h) hL θ m hp hne hh
+  rwa [show path σ.length = x from Subtype.ext hlast] at this
+
+/-- **Stage 3b: the executable particle-Gibbs update is the abstract mixture kernel**: for a complete
+tree `x` of the data set and every test function `hh`,
+`E[hh(SMC.pgStep x)] = ∑ y, PG.pgKernel x y · hh y` (with `κ = u = 1/N`). -/
+theorem pg_step_exec (dt : Data) (c : Proposal.Cfg) (D : List ℕ) (h : PG.HypD dt c D) (θ : ℚ) (m : ℕ)
+    (x : PG.St (PGSpec.allStates c D)) (hx : x.1 ∈ PGSpec.finals c D) (hh : T → ℚ) :
+    Dist.E (SMC.pgStep (PG.runOf dt c m θ) x.1) hh
+      = ∑ y : PG.St (PGSpec.allStates c D), PG.pgKernel dt c D (PG.uN m) θ m (PG.uN m) x y * hh y.1 :=
+  PG.pgStep_E h θ m x hx hh
+
+/-- **C01: `SMC.pgStep` leaves the `log_p_one` posterior invariant.**  For every data set with data
+indices `D` (distinct, non-empty, positive likelihoods, outlier priors in `[0,1)`), `α > 0`, each of
+the three proposals, outlier proposal probability in `[0,1)`, kernel built with a permutation
+distribution (`PG.HypD`), every number `N = m + 1 ≥ 1` of particles and every resampling threshold:
+`∑ x, pOne x · P(pgStep x = y) = pOne y`, the sum over the complete trees of the data set
+(`PG.piD` is `pOne` on `PGSpec.finals c D` and 0 on the partial trees of the common state space) and
+`P(pgStep x = y)` the expectation of the indicator of `y` under the finite distribution `SMC.pgStep`. -/
+theorem pg_invariant (dt : Data) (c : Proposal.Cfg) (D : List ℕ) (h : PG.HypD dt c D) (θ : ℚ) (m : ℕ)
+    (y : PG.St (PGSpec.allStates c D)) :
+    ∑ x : PG.St (PGSpec.allStates c D), PG.piD dt c D x.1 *
+        Dist.E (SMC.pgStep (PG.runOf dt c m θ) x.1) (fun z => if z = y.1 then 1 else 0)
+      = PG.piD dt c D y.1 :=
+  PG.pg_invariant h θ m y
+
+/-- non-vacuity (all three): the hypotheses hold on the two-point data set for every proposal kind and
+for the order `[1, 0]`; the chain "0 above 1" is a complete tree in the last level along `[1, 0]`; and
+the kernel is not degenerate there (by `#eval`, with the bootstrap proposal, two particles and threshold
+1/2, `pgStep` returns to that chain with probability 530133548587 / 705254697250 ≈ 0.75 and has six
+outcomes) -/
+example : (∀ k, PG.HypD Props.C19.exData (PG.exCfg k) [0, 1]) ∧ (∀ k, PG.Hyp Props.C19.exData (PG.exCfg k) [1, 0]) ∧
+    PG.exChain ∈ PGSpec.level (PG.exCfg .bootstrap) [1, 0] 2 ∧
+    PG.exChain ∈ PGSpec.finals (PG.exCfg .bootstrap) [0, 1] := by
+  refine ⟨PG.exHypD, PG.exHyp, ?_, ?_⟩ <;> decide +kernel
 
 end PhyModel.Props.C01
